@@ -2,6 +2,7 @@ package main
 
 import (
 	"flag"
+	"math/big"
 	"fmt"
 	"go/ast"
 	"go/types"
@@ -222,6 +223,7 @@ func (w *World) runHarness(h *Harness) (res *Result) {
 		e.strLitIDs[k] = v
 	}
 	e.allocSeq = ii.allocSeq
+	callAllocBase = ii.allocSeq
 	// globals that may be written after init are arbitrary at entry
 	for name, m := range st.mems {
 		if strings.HasPrefix(name, "global:") {
@@ -296,6 +298,7 @@ func cmdRun(args []string) {
 	dump := fs.String("smt", "", "directory to dump SMT files")
 	pkgFlag := fs.String("pkg", "", "package patterns (comma separated)")
 	timeout := fs.Duration("timeout", 10*time.Second, "solver timeout")
+	showModel := fs.Bool("model", false, "print a small model for sat obligations")
 	fs.Parse(args)
 	smtDir = *dump
 	if smtDir != "" {
@@ -335,6 +338,9 @@ func cmdRun(args []string) {
 				fmt.Printf("   %-8s %-60s %s:%d [%s %.2fs %dB] %s\n", v.Status, o.Name, shortFile(o.Pos.Filename), o.Pos.Line, v.Solver, v.Time, v.SMTSize, o.Desc)
 				if !isDischarged(o, v) {
 					bad++
+					if *showModel && v.Status == "sat" {
+						w.printModel(res, i)
+					}
 				}
 			}
 		}
@@ -440,4 +446,78 @@ func cmdReplay(args []string) int {
 		return 2
 	}
 	return 0
+}
+
+// printModel prints parameter leaves and the bytes of byte-slice parameters of a small model.
+func (w *World) printModel(res *Result, idx int) {
+	o := res.Obls[idx]
+	e := res.engine
+	fn := res.Harness.Fn
+	var st, out string
+	for _, bound := range []int64{128, 2048, 70000} {
+		q := e.modelQuery(o, fn, bound, nil, nil)
+		st, out, _ = runSolverDaemon(q, 20*time.Second)
+		if st == "sat" {
+			break
+		}
+	}
+	if st != "sat" {
+		fmt.Println("      (no small model:", st, ")")
+		return
+	}
+	vals := parseValues(out)
+	var names []string
+	for k := range vals {
+		names = append(names, k)
+	}
+	sort.Strings(names)
+	fix := map[string]*big.Int{}
+	for _, k := range names {
+		fmt.Printf("      %s = %#x\n", k, vals[k])
+		fix[k] = vals[k]
+	}
+	base := NewBaseMem(byteMemName, elemKS, 8, "M0."+byteMemName)
+	for _, prm := range fn.Params {
+		ls := leavesOf(prm.Type())
+		ts := namedTerms("arg."+prm.Name(), prm.Type())
+		for i, l := range ls {
+			if l.kind != LRegion {
+				continue
+			}
+			if _, ok := l.typ.Underlying().(*types.Slice); !ok {
+				continue
+			}
+			r, off, ln := vals[ts[i].name], vals[ts[i+1].name], vals[ts[i+2].name]
+			if r == nil || ln == nil || ln.Int64() > 128 {
+				if ln != nil {
+					ln = big.NewInt(64)
+				}
+			}
+			if r == nil || ln == nil {
+				continue
+			}
+			if off == nil {
+				off = new(big.Int)
+			}
+			var cells []memCell
+			for k := int64(0); k < ln.Int64(); k++ {
+				cells = append(cells, memCell{term: base.Read([]*Term{BVConstBig(r, RegionSort), BVConst(off.Int64()+k, IntSort)})})
+			}
+			q2 := e.modelQuery(o, fn, 1<<40, fix, cells)
+			st2, out2, _ := runSolverDaemon(q2, 20*time.Second)
+			if st2 != "sat" {
+				continue
+			}
+			mv := parseValues(out2)
+			var sb strings.Builder
+			for k := range cells {
+				if v, ok := mv[fmt.Sprintf("mv_%d", k)]; ok {
+					fmt.Fprintf(&sb, "%02x ", v.Uint64())
+				} else {
+					sb.WriteString("?? ")
+				}
+			}
+			fmt.Printf("      bytes of %s: %s\n", ts[i].name, sb.String())
+		}
+	}
 }
